@@ -222,6 +222,8 @@ func (e *Expr) CompileExpr(terms ast.Expr, env0 *types.Env) compiler.Closure {
 
 func (e *Expr) makeCallable(closure compiler.Closure, env0 *types.Env) Callable {
 	return func(v interface{}) (vl *val.Val, err error) {
+		// evaluation failures (index out of range, missing key, modulo by zero …) are reported, not thrown
+		defer e.backStrace("eval", &err)
 		env1, ok := v.(*val.Env)
 		if !ok {
 			env1, err = conv.ValEnvOf(v)
